@@ -78,6 +78,44 @@ fn run_case(c: &Case) -> CaseOut {
             CaseOut { in_line: format!("lex\t{}", proto::hex(c.input.as_bytes())), exp_line: parts.join(" "), oracle_failures, stats }
         }
         "fmt" => {
+            // cursors that make the implementation panic are isolated one by one and reported;
+            // the rest of the case continues without them
+            let mut cursors = c.cursors.clone();
+            if !cursors.is_empty() {
+                let all = cursors.clone();
+                let ok_all = std::panic::catch_unwind(std::panic::AssertUnwindSafe(|| stages::run_real(&c.input, &c.cfg, &all))).is_ok();
+                if !ok_all {
+                    let mut good = vec![];
+                    for cu in &all {
+                        let one = vec![*cu];
+                        if std::panic::catch_unwind(std::panic::AssertUnwindSafe(|| stages::run_real(&c.input, &c.cfg, &one))).is_ok() {
+                            good.push(*cu);
+                        } else {
+                            // classify: is the cursor in the same-line gap before a token that spans lines?
+                            let toks = oracles::lex_offsets(&c.input);
+                            let mut class = "other position";
+                            for (ti, t) in toks.iter().enumerate() {
+                                let cu = *cu as usize;
+                                if cu > t.start + t.ws_len && cu <= t.end && matches!(t.kind, pasfmt_core::prelude::RawTokenType::TextLiteral(pasfmt_core::prelude::TextLiteralKind::MultiLine)) {
+                                    class = "inside a multi-line string literal";
+                                    break;
+                                }
+                                if cu >= t.start && cu < t.start + t.ws_len.max(1) && cu <= t.start + t.ws_len {
+                                    // the token itself or a later token on the same output line spans lines
+                                    let spans = toks[ti..].iter().take(12).any(|x| c.input[x.start + x.ws_len..x.end].contains('\n'));
+                                    if spans {
+                                        class = "whitespace before a line-spanning token or a token followed by one";
+                                    }
+                                    break;
+                                }
+                            }
+                            oracle_failures.push(format!("c15: PANIC while relocating cursor {} ({})", cu, class));
+                        }
+                    }
+                    cursors = good;
+                }
+            }
+            let c = &Case { cursors: cursors.clone(), ..c.clone() };
             let snap = stages::run_stages(&c.input, &c.cfg, &c.cursors);
             let (real_out, _real_cur) = stages::run_real(&c.input, &c.cfg, &c.cursors);
             if real_out != snap.output {
@@ -139,7 +177,7 @@ fn run_case(c: &Case) -> CaseOut {
                 }
             }
             let in_line = format!(
-                "fmt\t{}\t{}\t{}\t{}\t{}\t{}\t{}",
+                "fmt\t{}\t{}\t{}\t{}\t{}\t{}\t{}\t{}",
                 c.cfg.to_proto(),
                 proto::hex(c.input.as_bytes()),
                 proto::list(&snap.kinds),
@@ -147,13 +185,15 @@ fn run_case(c: &Case) -> CaseOut {
                 proto::fmts(&snap.fmt_post),
                 proto::changed(&snap.contents_pre, &snap.contents_post),
                 proto::list(&alnum),
+                proto::list(&c.cursors),
             );
             let exp_line = format!(
-                "marks={}\tlv={}\tpre={}\tprec={}\tkr=1\twc=1\tnd=1\tout={}",
+                "marks={}\tlv={}\tpre={}\tprec={}\tkr=1\twc=1\tnd=1\tcur={}\tout={}",
                 proto::list(&snap.marks),
                 proto::lines(&snap.lines_voided),
                 proto::fmts(&snap.fmt_pre),
                 proto::changed(&raw_contents, &snap.contents_pre),
+                proto::list(&snap.cursors_out),
                 proto::hex(&snap.output),
             );
             CaseOut { in_line, exp_line, oracle_failures, stats }
@@ -450,6 +490,9 @@ fn cmd_emit(a: &Args) {
                     cursors.push(p as u32);
                 }
             }
+            if a.get("cursors_all", "0") == "1" && input.len() <= 160 {
+                cursors = (0..=input.len() + 2).filter(|p| *p >= input.len() || input.is_char_boundary(*p)).map(|p| p as u32).collect();
+            }
             let w2 = *r.pick(&[10u32, 20, 30, 40, 60, 80, 100, 120, 160, 200]);
             cases.push(Case { stream: stream.clone(), family: fam.clone(), input, cfg, cursors, oracles: oracle_list.clone(), well_formed, w2 });
         }
@@ -512,6 +555,7 @@ fn cmd_emit(a: &Args) {
 }
 
 fn main() {
+    std::panic::set_hook(Box::new(|_| {}));
     let argv: Vec<String> = std::env::args().collect();
     if argv.len() < 2 {
         eprintln!("usage: pv-harness emit --stream S --seed N --count N --out DIR");
